@@ -14,6 +14,7 @@ mod c08;
 mod c08w;
 mod c17;
 mod c17f;
+mod c17h1;
 pub mod c18;
 mod c18rp;
 mod c19;
@@ -60,6 +61,7 @@ pub fn run(engine: &str, toks: Vec<Tok>) -> Vec<Tok> {
         "c14_front" => c14s::front(toks),
         "c19_front" => c19f::run(toks),
         "c17_front" => c17f::run(toks),
+        "c17_front_h1" => c17h1::run(toks),
         "c20_run" => c20::run(toks),
         "c20_scrub" => c20::scrub(toks),
         "c19_run" => c19::run(toks),
